@@ -135,7 +135,16 @@ func runC07(w *World, r *Report) {
 		} else {
 			nResp++
 		}
-		c07Table(w, r, m, reqConsts, respConsts, resultType)
+		fn := w.Fn(pkgActions, m.recv+"."+m.decl.Name.Name)
+		if fn == nil {
+			r.Undec("R1", m.recv+"."+m.decl.Name.Name, m.decl.Pos(), "method not found in SSA")
+			continue
+		}
+		cs := respConsts
+		if m.isReq {
+			cs = reqConsts
+		}
+		c07TableSSA(w, r, fn, m.recv, m.isReq, cs, resultType)
 	}
 	r.Check(nReq == 5 && nResp == 3, "R1", "prioritize-implementations", token.NoPos, "found %d ReqPrioritize and %d RespPrioritize implementations (table rows 5 and 3)", nReq, nResp)
 
@@ -150,234 +159,6 @@ func runC07(w *World, r *Report) {
 	c07EncoderGuards(w, r)
 	r.Min("R5", 13)
 	r.Min("R6", 18)
-}
-
-func c07Table(w *World, r *Report, m c07Method, reqConsts, respConsts map[string]constant.Value, resultType func(dir, c string) string) {
-	dir := "Resp"
-	consts := respConsts
-	noop, obtained := "RespNoOp", ""
-	if m.isReq {
-		dir, consts, noop, obtained = "Req", reqConsts, "ReqNoOp", "ReqObtainedResponse"
-	}
-	key := m.recv + "." + dir + "Prioritize"
-	pos := m.decl.Pos()
-	var recvObj, otherObj types.Object
-	if len(m.decl.Recv.List[0].Names) > 0 {
-		recvObj = m.info.Defs[m.decl.Recv.List[0].Names[0]]
-	}
-	if ps := m.decl.Type.Params.List; len(ps) > 0 && len(ps[0].Names) > 0 {
-		otherObj = m.info.Defs[ps[0].Names[0]]
-	}
-	// the result variable: what the method's return statements return
-	var resObj types.Object
-	ast.Inspect(m.decl.Body, func(n ast.Node) bool {
-		if _, isLit := n.(*ast.FuncLit); isLit {
-			return false
-		}
-		if rs, ok := n.(*ast.ReturnStmt); ok && len(rs.Results) == 1 {
-			if id, ok := rs.Results[0].(*ast.Ident); ok {
-				if o := m.info.Uses[id]; o != nil {
-					if _, isVar := o.(*types.Var); isVar && resObj == nil {
-						resObj = o
-					}
-				}
-			}
-		}
-		return true
-	})
-	isObj := func(e ast.Expr, o types.Object) bool {
-		id, ok := ast.Unparen(e).(*ast.Ident)
-		return ok && o != nil && m.info.Uses[id] == o
-	}
-	// find the switch on other.XRunResult()
-	var sw *ast.SwitchStmt
-	ast.Inspect(m.decl.Body, func(n ast.Node) bool {
-		if s, ok := n.(*ast.SwitchStmt); ok && s.Tag != nil {
-			if c, ok := ast.Unparen(s.Tag).(*ast.CallExpr); ok {
-				if se, ok := c.Fun.(*ast.SelectorExpr); ok && se.Sel.Name == dir+"RunResult" && isObj(se.X, otherObj) {
-					sw = s
-				}
-			}
-		}
-		return true
-	})
-	if sw == nil {
-		// no table row: the method must return a single fixed operand
-		var rets []*ast.ReturnStmt
-		ast.Inspect(m.decl.Body, func(n ast.Node) bool {
-			if rs, ok := n.(*ast.ReturnStmt); ok {
-				rets = append(rets, rs)
-			}
-			return true
-		})
-		what := ""
-		ok := len(rets) == 1 && len(rets[0].Results) == 1 && len(m.decl.Body.List) == 1
-		if ok {
-			switch {
-			case isObj(rets[0].Results[0], otherObj):
-				what = "other"
-			case isObj(rets[0].Results[0], recvObj):
-				what = "receiver"
-			default:
-				ok = false
-			}
-		}
-		want := map[string]string{"NoOpAction": "other", "EarlyResponseAction": "receiver"}[m.recv]
-		r.Check(ok && what == want && want != "", "R2", key+"/constant-row", pos, "%s.%sPrioritize returns %q on all paths (want %q: no-op is the identity, an early response absorbs everything)", m.recv, dir, what, want)
-		return
-	}
-	// the result variable: every return returns it
-	covered := map[string]bool{}
-	var deflt *ast.CaseClause
-	type cell struct {
-		cname string
-		cc    *ast.CaseClause
-	}
-	var cells []cell
-	for _, st := range sw.Body.List {
-		cc := st.(*ast.CaseClause)
-		if cc.List == nil {
-			deflt = cc
-			continue
-		}
-		for _, e := range cc.List {
-			tv := m.info.Types[e]
-			name := ""
-			for n, v := range consts {
-				if tv.Value != nil && constant.Compare(tv.Value, token.EQL, v) {
-					name = n
-				}
-			}
-			if name == "" {
-				r.Fail("R1", key+"/unknown-case", e.Pos(), "case label is not a constant of the run-result type")
-				continue
-			}
-			covered[name] = true
-			cells = append(cells, cell{name, cc})
-		}
-	}
-	for n := range consts {
-		if !covered[n] {
-			if deflt != nil {
-				cells = append(cells, cell{n, deflt})
-			} else {
-				r.Fail("R1", key+"/missing-case/"+n, sw.Pos(), "no case for %s and no default: the fold would return a nil action", n)
-			}
-		}
-	}
-	r.Check(len(covered) == len(consts) || deflt != nil, "R1", key+"/exhaustive", sw.Pos(), "switch covers %d of %d run-result constants (default=%v)", len(covered), len(consts), deflt != nil)
-	sort.Slice(cells, func(i, j int) bool { return cells[i].cname < cells[j].cname })
-	for _, c := range cells {
-		ckey := key + "/" + c.cname
-		// statements of the cell
-		var assigns []*ast.AssignStmt
-		var merges []*ast.CallExpr
-		for _, s := range c.cc.Body {
-			ast.Inspect(s, func(n ast.Node) bool {
-				switch x := n.(type) {
-				case *ast.AssignStmt:
-					assigns = append(assigns, x)
-				case *ast.CallExpr:
-					if se, ok := x.Fun.(*ast.SelectorExpr); ok && se.Sel.Name == "MergeHeaders" {
-						if fn, ok := m.info.Uses[se.Sel].(*types.Func); ok && fn.Pkg() != nil && fn.Pkg().Path() == pkgUtils {
-							merges = append(merges, x)
-						}
-					}
-				}
-				return true
-			})
-		}
-		// first assignment to the result variable
-		var resRHS ast.Expr
-		for _, a := range assigns {
-			if len(a.Lhs) == 1 && len(a.Rhs) == 1 {
-				if id, ok := a.Lhs[0].(*ast.Ident); ok && resObj != nil && (m.info.Uses[id] == resObj || m.info.Defs[id] == resObj) {
-					if resRHS == nil {
-						resRHS = a.Rhs[0]
-					}
-				}
-			}
-		}
-		if resRHS == nil {
-			r.Fail("R1", ckey+"/assigns-result", c.cc.Pos(), "case %s does not assign the result: a nil action would be returned", c.cname)
-			continue
-		}
-		switch c.cname {
-		case obtained:
-			r.Check(isObj(resRHS, otherObj) && len(merges) == 0, "R2", ckey, c.cc.Pos(), "an obtained response wins: the cell returns the other action unchanged")
-		case noop:
-			r.Check(isObj(resRHS, recvObj) && len(merges) == 0, "R2", ckey, c.cc.Pos(), "a no-op never displaces: the cell returns the receiver")
-		default:
-			ot := resultType(dir, c.cname)
-			sameKind := ot == m.recv
-			if !m.isReq && !sameKind {
-				// response side, different kinds (modification vs retry): later action wins whole
-				r.Check(isObj(resRHS, otherObj), "R3", ckey, c.cc.Pos(), "different kinds on the response side: the later action replaces the earlier one")
-				continue
-			}
-			// merge cell
-			okMerge := len(merges) == 1 && len(merges[0].Args) == 2
-			detail := ""
-			var mergedObj types.Object
-			if okMerge {
-				a0, a1 := merges[0].Args[0], merges[0].Args[1]
-				s0, ok0 := a0.(*ast.SelectorExpr)
-				s1, ok1 := a1.(*ast.SelectorExpr)
-				okMerge = ok0 && ok1 && s0.Sel.Name == "HeadersToSet" && s1.Sel.Name == "HeadersToSet" && isObj(s0.X, recvObj)
-				if okMerge {
-					ta, isTA := ast.Unparen(s1.X).(*ast.TypeAssertExpr)
-					okMerge = isTA && isObj(ta.X, otherObj) && structOf(m.info.TypeOf(ta.Type)) == ot
-				}
-				detail = fmt.Sprintf("MergeHeaders(%s, %s)", exprString(a0), exprString(a1))
-				// merged value bound to a variable
-				for _, a := range assigns {
-					if len(a.Rhs) == 1 && a.Rhs[0] == ast.Expr(merges[0]) && len(a.Lhs) == 1 {
-						if id, ok := a.Lhs[0].(*ast.Ident); ok {
-							mergedObj = m.info.Defs[id]
-							if mergedObj == nil {
-								mergedObj = m.info.Uses[id]
-							}
-						}
-					}
-				}
-			}
-			// the merged map becomes HeadersToSet of the result
-			carried := false
-			if mergedObj != nil {
-				for _, s := range c.cc.Body {
-					ast.Inspect(s, func(n ast.Node) bool {
-						switch x := n.(type) {
-						case *ast.KeyValueExpr:
-							if k, ok := x.Key.(*ast.Ident); ok && k.Name == "HeadersToSet" && isObj(x.Value, mergedObj) {
-								carried = true
-							}
-						case *ast.AssignStmt:
-							if len(x.Lhs) == 1 && len(x.Rhs) == 1 {
-								if se, ok := x.Lhs[0].(*ast.SelectorExpr); ok && se.Sel.Name == "HeadersToSet" && isObj(se.X, recvObj) && isObj(x.Rhs[0], mergedObj) {
-									carried = true
-								}
-							}
-						}
-						return true
-					})
-				}
-			}
-			r.Check(okMerge && carried, "R3", ckey, c.cc.Pos(), "merge cell: exactly one %s with receiver first and other.(*%s) second (ok=%v), merged map carried as the result's HeadersToSet=%v", detail, ot, okMerge, carried)
-		}
-	}
-	// the method returns the result variable
-	okRet := false
-	ast.Inspect(m.decl.Body, func(n ast.Node) bool {
-		if rs, ok := n.(*ast.ReturnStmt); ok && len(rs.Results) == 1 {
-			if id, ok := rs.Results[0].(*ast.Ident); ok && resObj != nil && m.info.Uses[id] == resObj {
-				okRet = true
-			} else {
-				okRet = false
-			}
-		}
-		return true
-	})
-	r.Check(okRet, "R1", key+"/returns-cell-result", pos, "the method returns the value assigned by the selected case")
 }
 
 func exprString(e ast.Expr) string {
